@@ -573,7 +573,7 @@ func TestC05(t *testing.T) {
 		{config{name: "DialPeerAddr(X) and DialPeerAddr(Y) through an alias of aX; aX initially served by Y", initial: "Y", dialaddr: true, alias: true}, 5, 7},
 		{config{name: "all three request kinds; aX initially unbound", initial: "-", dialaddr: true, dialtpt: true, estlink: true}, 4, 6},
 		{config{name: "EstablishLinkWithPeer(X) + DialPeerAddr with a constant 1 s dial back-off; aX initially served by Y", initial: "Y", estlink: true, dialaddr: true, constantBO: true}, 4, 6},
-		{config{name: "DialPeerAddr(X,aX) while the node serving aX may itself connect to L; aX initially unbound", initial: "-", dialaddr: true, peerdial: true}, 5, 7},
+		{config{name: "DialPeerAddr(X,aX) while the node serving aX may itself connect to L; aX initially unbound", initial: "-", dialaddr: true, peerdial: true}, 4, 7},
 		{config{name: "EstablishLinkWithPeer(X) + DialTptAddr(X,aX) while the node serving aX may itself connect to L; aX initially unbound", initial: "-", estlink: true, dialtpt: true, peerdial: true}, 4, 6},
 	}
 	for i := range scens {
